@@ -80,7 +80,7 @@ func (s *listSubj[T]) afterCall(vs []T) {
 	_ = vs
 }
 
-var listRoles = []string{"mixed", "grower", "shrinker", "mixed"}
+var listRoles = []string{"mixed", "grower", "shrinker", "mixed", "refill"}
 
 func (s *listSubj[T]) Roles() []string { return listRoles }
 
@@ -98,8 +98,24 @@ func (s *listSubj[T]) GenOp(r *Rng, id int, c *Client) Op {
 	case "shrinker":
 		w[0], w[3], w[4] = 3, 3, 25
 	}
-	if size > 40 {
+	limit := 40
+	if s.cfg.Mode == "big" {
+		limit = s.cfg.Dom // large-size runs: cross the array list's grow (x2) and shrink (25%) thresholds at scale
+	}
+	if size > limit {
 		w[4] = 30
+	}
+	if c.Role == "refill" { // fill, clear, refill to about the previous size, then remove around the middle
+		c.Cursor++
+		k := 8 + c.Cursor/64%4*8
+		switch ph := c.Cursor % (2*k + 6); {
+		case ph < k || (ph > k && ph <= 2*k):
+			return Op{ID: id, N: "Add", A: genIdxs(r, 1+r.Intn(3), dom)}
+		case ph == k:
+			return Op{ID: id, N: "Clear"}
+		default:
+			return Op{ID: id, N: "Remove", A: []int{size / 2}}
+		}
 	}
 	switch r.Weighted(w...) {
 	case 0:
@@ -242,6 +258,9 @@ func isPermutation[T comparable](a, b []T) bool {
 }
 
 func (s *listSubj[T]) check(o *Oracle) {
+	if o.Sparse {
+		return
+	}
 	if len(o.Active) == 0 {
 		return // C18 write phases: no observer may run on the container (it would warm lazily built state)
 	}
@@ -258,6 +277,9 @@ func (s *listSubj[T]) check(o *Oracle) {
 	if o.On("C03") {
 		o.Eq("C03", "size", s.l.Size(), len(s.m))
 		for i := -1; i <= len(s.m); i++ {
+			if s.cfg.Mode == "big" && i > 8 && i < len(s.m)-8 && (i+o.cur.ID)%41 != 0 {
+				continue
+			}
 			v, ok := s.l.Get(i)
 			var wv T
 			wok := inRange(i, len(s.m))
@@ -274,7 +296,7 @@ func (s *listSubj[T]) check(o *Oracle) {
 			}
 		}
 		io := s.l.(indexOfer[T])
-		for _, v := range s.d.Tab {
+		for _, v := range probeTab(s.d.Tab, s.cfg, o.cur.ID) {
 			if got, want := io.IndexOf(v), slices.Index(s.m, v); got != want {
 				o.Fail("C03", "indexof", "after %s: IndexOf(%s)=%d, want %d", o.cur, s.d.Str(v), got, want)
 			}
@@ -291,11 +313,15 @@ func (s *listSubj[T]) check(o *Oracle) {
 			o.Fail("C03", "contains-empty", "after %s: Contains() with no arguments is false", o.cur)
 		}
 		// a derived multi-argument query
-		n := derive(o.cur.ID, 1, 4)
+		n := derive(o.cur.ID, 1, 6)
 		q := make([]T, n)
 		want := true
 		for i := range q {
-			q[i] = s.d.At(derive(o.cur.ID, 10+i, len(s.d.Tab)))
+			if len(s.m) > 0 && derive(o.cur.ID, 20+i, 4) > 0 {
+				q[i] = s.m[derive(o.cur.ID, 30+i, len(s.m))] // members, often repeated, often more of them than the list is long
+			} else {
+				q[i] = s.d.At(derive(o.cur.ID, 10+i, len(s.d.Tab)))
+			}
 			want = want && slices.Contains(s.m, q[i])
 		}
 		if got := s.l.Contains(q...); got != want {
@@ -480,3 +506,11 @@ func (s *listSubj[T]) EncodeModel() []byte {
 	return mustJSON(s.m)
 }
 func (s *listSubj[T]) AdoptModel(from Subject) { s.m = slices.Clone(from.(*listSubj[T]).m) }
+
+// CheckNow runs the state comparison regardless of the sparse setting.
+func (s *listSubj[T]) CheckNow(o *Oracle) {
+	sp := o.Sparse
+	o.Sparse = false
+	s.check(o)
+	o.Sparse = sp
+}
